@@ -7,6 +7,13 @@ TRUST = ("trusted base: go/types + go/ssa (x/tools v0.50.0), goyacc v0.29.0's LA
          "interface calls that leave the module (Entry, plugins) are opaque")
 
 CHECKS = {
+    "C11": dict(
+        cat="other",
+        text=("Decides the structural necessary conditions of total and deterministic compilation: every iteration over a Go map in compile/, parse/, schema/ and data/ is either order-insensitive by shape (map copies, collect-then-sort) or a reviewed site with the reason its order is unobservable, calls no order-sensitive phase and gains no new outer-slice append; the order-sensitive phases (grouping/augment expansion, deviations, module build) are called only inside loops over the topologically sorted module names, and those names are the sorter's output; the reference-following recursions (features, groupings, typedef chain) carry a path set that is tested, inserted before and removed after the descent, and the grouping check enumerates uses transitively as the expansion does; every explicit panic in the compiler carries an error and every phase compileInternal calls that can raise one defers Compiler.recover."),
+        ref="DESIGN.md §4 C11",
+        technique="map-iteration-order rule with a reviewed site table, loop-context (who-calls-under-which-range) rule, recursion-guard (path set) shape rule, panic-value typing, recover coverage over static call cones",
+        note="Not decided: runtime errors the compiler re-raises, termination of structural recursion, and that consumers treat the reviewed set-valued lists as sets. " + TRUST,
+    ),
     "C08": dict(
         cat="other",
         text=("Thin, and stated as such: decides the constants and dispatch that RFC 6020 6.1.3 decoding rests on — the escape table values, the shared tab width of 8 used by both the quote-column computation and the indentation stripper, that the quote column is counted per character and not from byte lengths, that substitution/stripping is applied iff the closing quote is a double quote and unquoted/single-quoted text is verbatim, that pieces are joined piece + rest and a continuation needs '+' then a quote, that comment scanners are entered only between tokens, and the flag discipline of the escape-substitution loop (the 'previous backslash pair' flag is false after every non-empty piece). The arithmetic over concrete layouts is not decided."),
@@ -132,7 +139,7 @@ def main():
 
 
 NA = {}
-SOURCE_COMMITS = ["e91d74a fix: reject invalid UTF-8 inside literals and QName local parts", "ad0dbf5 fix: CreateProgram no longer panics when the error position underflows", "f5b2578 fix: a submodule may have at most one organization statement", "7be1c78 fix: spell the yin-element keyword correctly", "9e6f860 fix: boolean arguments accept only true and false", "779e276 fix: integer arguments are decimal only", "b95096a fix: identifiers are ASCII as the YANG ABNF requires", "2221591 fix: NewFakeNodeByType no longer writes into the shared cardinality table", "53dc864 fix: div follows IEEE 754 for a zero denominator", "ea66e69 fix: boolean() of NaN is false", "588031e fix: round() rounds ties towards positive infinity", "362e2bb fix: string() of a number never uses exponent notation", "9ac8c0a fix: string-length() and substring() count characters, not bytes", "9cf326e fix: a run stops at the first error an instruction reports", "fb4c9e7 fix: the tested-function table is accessed under the function-table lock", "8440a3d fix: the YANG lexer no longer hangs when the text ends inside an unquoted word", "bd7a52f fix: a failed parse no longer leaks the lexer goroutine"]
+SOURCE_COMMITS = ["e91d74a fix: reject invalid UTF-8 inside literals and QName local parts", "ad0dbf5 fix: CreateProgram no longer panics when the error position underflows", "f5b2578 fix: a submodule may have at most one organization statement", "7be1c78 fix: spell the yin-element keyword correctly", "9e6f860 fix: boolean arguments accept only true and false", "779e276 fix: integer arguments are decimal only", "b95096a fix: identifiers are ASCII as the YANG ABNF requires", "2221591 fix: NewFakeNodeByType no longer writes into the shared cardinality table", "53dc864 fix: div follows IEEE 754 for a zero denominator", "ea66e69 fix: boolean() of NaN is false", "588031e fix: round() rounds ties towards positive infinity", "362e2bb fix: string() of a number never uses exponent notation", "9ac8c0a fix: string-length() and substring() count characters, not bytes", "9cf326e fix: a run stops at the first error an instruction reports", "fb4c9e7 fix: the tested-function table is accessed under the function-table lock", "8440a3d fix: the YANG lexer no longer hangs when the text ends inside an unquoted word", "bd7a52f fix: a failed parse no longer leaks the lexer goroutine", "8d5ab76 fix: a typedef that refers to itself is an error, not a stack overflow", "3484836 fix: shared features and groupings are not cycles", "71f7ba0 fix: grouping cycles through nested nodes are detected"]
 
 if __name__ == "__main__":
     main()
